@@ -247,6 +247,9 @@ def gen(rnd: random.Random, opts: dict) -> Design:
     if rnd.random() < opts.get("p_vdiamond", 0.15):
         add_validated_diamond_pattern(D, rnd)
         keys = list(D.bodies)
+    if rnd.random() < opts.get("p_elif_diamond", 0.15):
+        add_elif_diamond_pattern(D, rnd)
+        keys = list(D.bodies)
     for k in keys:  # Forwarder-style ready: ready = bit | other.run with other.schedule_before(this)
         if rnd.random() < opts.get("p_forwarder", 0.15):
             earlier = [x for x in keys if D.deford[x] < D.deford[k] and x != k]
@@ -499,6 +502,38 @@ def add_nonexclusive_depth_pattern(D, rnd):
     return True
 
 
+def add_elif_diamond_pattern(D, rnd):
+    """Forced layout class: one transaction calls one exclusive method (with distinguishable constant arguments) in the If, the Elif and the Else
+    alternative of one chain: whatever the conditions are, exactly one of the call sites is active."""
+    tops = [b for b in D.order if b.kind == "t"]
+    if not tops:
+        return False
+    t = rnd.choice(tops)
+    m_idx = D.nm
+    D.nm += 1
+    D.meth.append(dict(has_in=True, nonex=False, validate=None, combiner=None, single_caller=False))
+    b = B("m", m_idx)
+    b.pos = ((("body", "m", m_idx), 0),)
+    D.nbits += 1
+    b.rdy = D.nbits - 1
+    D.bodies[b.key] = b
+    D.order.append(b)
+    D.deford[b.key] = len(D.deford)
+    sid = D.struct
+    D.struct += 1
+    D.nbits += 2
+    c0, c1 = D.nbits - 2, D.nbits - 1
+    sites = []
+    for alt, const in ((0, 1), (1, 2), (2, 4)):
+        st = new_site(D, t, m_idx, pos=t.pos + ((("if", sid), alt),))
+        st.arg = ("const", const)
+        sites.append(st)
+    t.stmts.append(("if", sid, [c0, c1], [[("call", sites[0])], [("call", sites[1])]], [("call", sites[2])] if rnd.random() < 0.7 else None))
+    if t.stmts[-1][4] is None:
+        D.sites.remove(sites[2])
+    return True
+
+
 def add_validated_diamond_pattern(D, rnd):
     """Forced layout class: one transaction calls method A from two mutually exclusive sites (If / Else); A calls a method V with
     validate_arguments. Whichever site is active, V's predicate must hold for the transaction to run."""
@@ -671,7 +706,7 @@ def add_deep_chain_pattern(D, rnd):
     first = D.nm
     D.nm += depth
     for k in range(depth):
-        D.meth.append(dict(has_in=False, nonex=rnd.random() < 0.2, validate=None, combiner=None, single_caller=False))
+        D.meth.append(dict(has_in=rnd.random() < 0.5, nonex=rnd.random() < 0.2, validate=None, combiner=None, single_caller=False))
         b = B("m", first + k)
         b.pos = ((("body", "m", first + k), 0),)
         D.nbits += 1
@@ -1335,6 +1370,15 @@ def run_design(rec: Rec, D, A, rnd: random.Random, case: dict, sched: str = "eag
                 ok = ok and bool(bits[D.sites_by_id[sk[1]].en])
         return ok
 
+    from .. import txsan as _txsan
+    san = None
+    try:
+        san = _txsan.TxSan(top.transaction_manager, rec, case, "gen")
+        san_sigs = san.signals()
+    except Exception:
+        san = None
+        rec.count("txsan_not_attached_to_generated_design")
+
     async def tb(ctx):
         if exhaustive:
             vals = list(range(1 << nb))
@@ -1364,6 +1408,9 @@ def run_design(rec: Rec, D, A, rnd: random.Random, case: dict, sched: str = "eag
             din = {k: (ctx.get(e.objs[k].data_in.x) if k[0] == "m" and D.meth[k[1]]["has_in"] else None) for k in D.bodies}
             dout = {k: ctx.get(e.objs[k].data_out.y) for k in D.bodies if k[0] == "m"}
             rec.count("cycles")
+            if san is not None:
+                # the design-independent sanitizer reads the REAL per-call-site enable signals (the reference activity above is computed from inputs)
+                san.check([int(ctx.get(x)) for x in san_sigs])
             entry = {"cycle": cyc, "bits": "".join(str(x) for x in bits), "ins": ins, "run": sorted(str(k) for k in run if run[k])}
             log.append(entry)
             det = {"last_cycles": list(log)}
@@ -1408,6 +1455,9 @@ def run_design(rec: Rec, D, A, rnd: random.Random, case: dict, sched: str = "eag
                     rec.count("nonexclusive_multi_caller_cycles")
                 if run[k] and md["has_in"]:
                     args = [argval(s) for s in act[j]]
+                    if not md["nonex"] and nact == 0:
+                        rec.check("C05:exclusive_method_sees_argument_of_its_active_call", False, case=case,
+                                  detail=dict(det, method=j, observed=din[k], expected="no call site is active, yet the method runs on some argument"))
                     if not md["nonex"] and nact == 1:
                         if sum(1 for s in D.sites if s.callee == j) >= 2:
                             rec.count("routed_args_with_several_potential_callers")
